@@ -338,6 +338,8 @@ func (c *fctx) stmt(s ast.Stmt, en *env, lc *lctx, next kont) string {
 		if len(x.Results) != len(c.fi.results) {
 			t.fail(s, "return with %d values in a function with %d results", len(x.Results), len(c.fi.results))
 		}
+		c.inRet++ // [BitsCode] struct literals in a return operand may hold named slices
+		defer func() { c.inRet-- }()
 		return c.args(x.Results, en, func(vs []string) string { return lc.ret(c.retTerm(en, vs)) })
 	case *ast.BranchStmt:
 		if x.Label != nil {
